@@ -1,7 +1,7 @@
 #!/bin/bash
 # run_mutants.sh <ID> [patch ...]   - applies each patch to a scratch worktree and runs ./check <ID> against it
 ID=$1; shift
-WT=/tmp/wt_run_$ID
+WT=/tmp/wt_run_${ID}_$$
 cd /verif
 git -C /repo worktree add -f $WT HEAD -q 2>/dev/null
 git -C $WT checkout -q --detach $(git -C /repo rev-parse HEAD); git -C $WT checkout -- .
